@@ -26,6 +26,8 @@ ASSUMPTIONS = [
     "model: rolling back to a state invalidates every state reachable from it through recorded edges and nothing else; deriving a "
     "state (again) makes that state and the states it is derived from valid; unrecorded states are invalid",
     "real in-memory SQLite backend (no stub); Postgres is outside",
+    "c25_workflow: whole executions (stock scheduler) of a handle-advancing task under solver-chosen code versions, cached or with "
+    "run(cache=False)",
 ]
 
 
@@ -165,8 +167,27 @@ def c25_kernel(k: int) -> bool:
     return guard(body, k=k)
 
 
+def c25_workflow(k: int) -> bool:
+    """
+    post: _
+    """
+    def body():
+        from vp.harness import c04 as W
+        n = SL()
+        place = W.HPLACES[choose(len(W.HPLACES), "place")]
+        versions = ["v1"] + [["v1", "v2"][choose(2, "version")] for _ in range(n - 1)]
+        nocache = [choose(2, "nocache") == 1 for _ in range(n)]
+        return native(lambda: W.handle_case(place, versions, nocache)[0])
+    return guard(body, k=k)
+
+
 _NO = len(OPS)
 CONDITIONS = [
+    Condition(c25_workflow, slices=[3], thorough_slices=[3, 4], timeout=250, thorough_timeout=1500,
+              bounds="slice = number of successive executions of a workflow whose task advances a Handle; per execution the task's code "
+                     "version (v1/v2) and whether the execution runs with cache=False are solver-chosen, as is the position in which "
+                     "the Handle reaches the task (direct, keyword, list, dict, nested); the task must execute exactly when it runs "
+                     "uncached or the previous execution on that incoming handle was by the other version"),
     Condition(c25_kernel, slices=[0, 1, 2], timeout=250, thorough_timeout=900,
               bounds="one rollback step of the real rollback_handle / is_valid_handle on the S4 session from an ARBITRARY handle graph "
                      "of 4 states (any DAG edges among same-name states, symbolic validity bits, states of another handle name "
@@ -192,6 +213,12 @@ def warmup(cond):
 
 
 def replay(cond, args, extra):
+    if cond == "c25_workflow":
+        from vp.harness import c04 as W
+        ch = [c[1] for c in extra["choices"]]
+        n = extra["slice"]
+        ok, detail = W.handle_case(W.HPLACES[ch[0]], ["v1"] + [["v1", "v2"][c] for c in ch[1:n]], [c == 1 for c in ch[n:2 * n]])
+        return (not ok), detail, None
     if cond == "c25_kernel":
         from vp.harness import dbkern as K
         pi, pc, pb = K.replay_pickers(extra["choices"])
